@@ -27,6 +27,14 @@ def tasks(tier, seed):
     ts += SC.session_tasks(tier, [], 'session', None, early=(0, 1, 3, 5), nobj=7, scaled=True,
                            kinds={'memory', 'uncaught_exception', 'terminate', 'deadlock', 'hang', 'limit', 'leak'})
     ts += SC.big_session_tasks(tier, 'session', None, kinds={'memory', 'uncaught_exception', 'terminate', 'deadlock', 'hang', 'limit', 'leak'})
+    # close() in the middle of a read session while the workers are in the middle of a container: base schedule "a new
+    # thread runs before its creator continues" plus one preemption (worker -> application at every synchronisation point,
+    # also inside critical sections), close after 0 / 1 delivered objects
+    import sched_common as SCH
+    for ec in (0, 1):
+        ts += SCH.sched_tasks(tier, [], 'close%d_child_first' % ec, None,
+                              {'memory', 'uncaught_exception', 'terminate', 'deadlock', 'hang', 'leak'}, in_cs=True, child_first=True,
+                              extra_defs='#undef EARLY_CLOSE_AFTER\n#define EARLY_CLOSE_AFTER %d\n' % ec, nobj=3)
     # lemma of the monitor reduction: no lost wake-up in the stream (every consumer operation that frees buffer space
     # notifies the waiting producer, every producer operation that makes data / the end available notifies the consumer)
     import c15
